@@ -69,6 +69,24 @@ theorem built_same_text {vfs : List (String × String)} {rootPath : String} {inc
       fileText ws S.define = S.name ∧ ∀ x ∈ S.refs, fileText ws x = S.name :=
   index_same_text (C03.built_ready hb) hr file p c hc
 
+/-- the C06 theorems without any hypothesis: for every virtual file system, root path and include
+directory the workspace is built (`C03.buildWorkspace_total`), the indexer returns, its log is
+`RefStable`, and clauses 1–3 hold of the position map built from it -/
+theorem c06_all (vfs : List (String × String)) (rootPath : String) (includeDir : Option String) :
+    ∃ ws r, buildWorkspace vfs rootPath includeDir = .ok ws ∧ Index.index ws = .ok r ∧
+      RefsValid (opsOf r) 0 ∧ NamedRefs (opsOf r) ∧ TextOk (fileText ws) (opsOf r) ∧ DisjointLocs (opsOf r) ∧
+      RefStable (opsOf r) ∧
+      (∀ file p c, cursorLoc (run (opsOf r)) file p = some c →
+        ∃ S, findSymbolAt (run (opsOf r)) file p = some S ∧ fileText ws c = S.name ∧
+          fileText ws S.define = S.name ∧ ∀ x ∈ S.refs, fileText ws x = S.name) ∧
+      (∀ file p S, findSymbolAt (run (opsOf r)) file p = some S → ∀ x ∈ S.refs, x.isEmpty = false →
+        ∀ q, overlaps x x.file q = true → gotoDef (run (opsOf r)) x.file q = some S.define) := by
+  obtain ⟨ws, r, hb, hr⟩ := C03.index_never_panics_all vfs rootPath includeDir
+  have h := C03.built_ready hb
+  exact ⟨ws, r, hb, hr, index_refsValid h hr, index_namedRefs h hr, index_textOk h hr, index_disjointLocs h hr,
+    built_refStable hb hr, fun file p c hc => built_same_text hb hr file p c hc,
+    fun file p S hf x hx hne q hq => built_goto_from_references_agrees hb hr file p S hf x hx hne q hq⟩
+
 /-! ### non-vacuity -/
 
 /-- the example of `C06Index.lean` (`def d { int f = 1; let f = 2; }`): its identifier nodes begin
@@ -112,8 +130,8 @@ example : ¬ ∀ g, IdsNE ((wsOfTree badTree).tree g) := by
   have := index_refStable_of bad_ready h hr
   obtain ⟨ws', _, r', _, _⟩ := refStable_not_from_ready
   rw [hns] at this
-  have hbad := this [.define [] ⟨0, 0, 0⟩, .define [] ⟨0, 0, 0⟩, .define [] ⟨0, 0, 0⟩] [.define [] ⟨0, 0, 0⟩] 1
-    ⟨0, 0, 0⟩ rfl (⟨0, 0, 0⟩, 3) (by simp [registrations, RefStable.registrations.count]) rfl
+  have hbad := this [.define [] ⟨0, 0, 0⟩, .define [] ⟨0, 0, 0⟩] [.define [] ⟨0, 0, 0⟩] 1
+    ⟨0, 0, 0⟩ rfl (⟨0, 0, 0⟩, 2) (by simp [registrations, RefStable.registrations.count]) rfl
   simp at hbad
 
 end Tg.C06
